@@ -1,10 +1,12 @@
 #!/bin/bash
-# Offline setup: nothing to install. Warm the Go build cache for the harness kit so that the
-# first check does not pay the whole cold build (optional; every check rebuilds from /repo).
+# Offline setup: nothing to install or download. Warm the Go build cache with the exact
+# build configuration the checks use (-tags verif), so the first check does not pay the
+# whole cold build. Every check still rebuilds from /repo's working tree.
 cd "$(dirname "$0")"
 export GOFLAGS=-mod=mod GOPROXY=off
 unset GOSUMDB GOTOOLCHAIN
 mkdir -p build/bin out evidence
-(cd /repo && go build ./... >/dev/null 2>&1 || true)
-(cd /repo && go test -vet=off -count=1 -run '^$' ./cmd/restic ./internal/repository ./internal/archiver ./internal/restorer >/dev/null 2>&1 || true)
+(cd /repo && go build -tags verif ./... ) >/dev/null 2>&1 || true
+(cd /repo && go test -tags verif -vet=off -count=1 -run '^$' ./cmd/restic ./internal/... ) >/dev/null 2>&1 || true
+(cd /repo && go test -race -tags verif -vet=off -count=1 -run '^$' ./internal/repository/... ./internal/bloblru ./internal/backend/... ./internal/data ./internal/fuse ./internal/dump ) >/dev/null 2>&1 || true
 exit 0
